@@ -42,7 +42,7 @@ theorem ensureWriter_ok {s : Store} {d : Disk} {A C : List Rec} (i : SInv s d A 
     simp only [Option.getD_none]
     have hclean := i.nogarb hr
     have dnew : DInv { d with files := d.files ++ [{ num := s.nextWAL }] } A := by
-      refine ⟨numsAsc_snoc di.asc (fun G hG => i.next G hG), garbageOnlyLast_snoc _ _ hclean, ?_, di.zclean, ?_, di.zlow⟩
+      refine ⟨numsAsc_snoc di.asc (fun G hG => i.next G hG), garbageOnlyLast_snoc _ _ hclean, ?_, di.zclean, ?_, di.zlow, ?_, di.zlowAlt⟩
       · intro ⟨f, hf, hg⟩
         exfalso
         rcases List.mem_append.mp hf with h | h
@@ -50,7 +50,10 @@ theorem ensureWriter_ok {s : Store} {d : Disk} {A C : List Rec} (i : SInv s d A 
         · simp only [List.mem_singleton] at h; subst h; simp at hg
       · show Presents d.wmVal (recsOf (d.files ++ [{ num := s.nextWAL }])) A
         rw [recsOf_nil_file]; exact di.pres
-    refine ⟨?_, dnew, dnew.dropZombies, ?_, ?_, ?_, ?_, ?_, ?_, ?_⟩ <;> (try first | trivial | rfl | exact hr)
+      · intro w hw
+        show Presents (w.getD 0) (recsOf (d.files ++ [{ num := s.nextWAL }])) A
+        rw [recsOf_nil_file]; exact di.presAlt w hw
+    refine ⟨?_, dnew, dnew.synced, ?_, ?_, ?_, ?_, ?_, ?_, ?_⟩ <;> (try first | trivial | rfl | exact hr)
     refine ⟨i.ewf, i.rwf, ?_, i.pruned, i.view, i.pend, ?_, fun _ => rfl, fun _ => hr, ?_, ?_⟩
     · show Covers s.idx (pairsOf (d.files ++ [{ num := s.nextWAL }]))
       rw [pairsOf_nil_file]; exact i.cov
@@ -134,50 +137,99 @@ theorem SInv.of_since {s : Store} {d : Disk} {A C : List Rec} (i : SInv s d A C)
     SInv { s with sinceCleanup := k } d A C :=
   ⟨i.ewf, i.rwf, i.cov, i.pruned, i.view, i.pend, i.wr, i.wrz, i.wrr, i.next, i.nogarb⟩
 
-/-- the amortised cleanup: watermark, rotation, removal of the obsolete logs -/
+/-- `SInv` only looks at the logs and the pending unlinks of the directory -/
+theorem SInv.of_disk {s : Store} {d d' : Disk} {A C : List Rec} (i : SInv s d A C) (hf : d'.files = d.files)
+    (hz : d'.zombies = d.zombies) : SInv s d' A C :=
+  ⟨i.ewf, i.rwf, by rw [hf]; exact i.cov, i.pruned, i.view, i.pend, by rw [hf]; exact i.wr, by rw [hz]; exact i.wrz,
+    i.wrr, by rw [hf]; exact i.next, by rw [hf]; exact i.nogarb⟩
+
+/-- the amortised cleanup: watermark, rotation, removal of the obsolete logs — with any of
+its failures injected -/
 theorem cleanup_ok {s : Store} {d : Disk} {A : List Rec} {n : Nat} (i : SInv s d A []) (di : DInv d A)
-    (hw : s.writer = some n) (hz : d.zombies = []) (hr : s.repairRequired = false) :
-    (∀ b ∈ (cleanup s d n).bases, b.2 = true ∧ DInv b.1 A) ∧ DInv (cleanup s d n).disk A ∧
-    SInv (cleanup s d n).st (cleanup s d n).disk A [] ∧
-    (∀ F ∈ (cleanup s d n).removed, Low (maxPrune A) (recsOfFile F)) ∧
-    (cleanup s d n).out = .ok ∧ (cleanup s d n).st.closed = s.closed := by
+    (hw : s.writer = some n) (hz : d.zombies = []) (hr : s.repairRequired = false) (ft : Fault) :
+    (∀ b ∈ (cleanup s d n ft).bases, b.2 = true ∧ DInv b.1 A) ∧ DInv (cleanup s d n ft).disk A ∧
+    SInv (cleanup s d n ft).st (cleanup s d n ft).disk A [] ∧
+    (∀ F ∈ (cleanup s d n ft).removed, Low (maxPrune A) (recsOfFile F)) ∧
+    (cleanup s d n ft).out.committed = true ∧ (cleanup s d n ft).st.closed = s.closed := by
   obtain ⟨pre, F, hf, hn⟩ := i.wr n hw
   subst hn
   have hclean := i.nogarb hr
   have hcpre : ∀ G ∈ pre, G.garbage = false := fun G hG => hclean G (by rw [hf]; exact List.mem_append_left _ hG)
   have hle := di.wm_le
   have hp := i.pruned
-  have dren : ∀ t, DInv { d with wm := some s.idx.pruned, tmp := t } A :=
-    fun t => di.setWm _ t (by rw [hp]; exact hle) (by rw [hp]; exact Nat.le_refl _) hz
-  have dwm : DInv { d with wm := some s.idx.pruned, tmp := false, zombies := [] } A := (dren false).dropZombies
+  have halt : ∀ w', some d.wm = some w' → Presents (w'.getD 0) (recsOf d.files) A := by
+    intro w' hw'
+    simp only [Option.some.injEq] at hw'
+    subst hw'
+    exact di.pres
+  have dren : ∀ t, DInv { d with wm := some s.idx.pruned, tmp := t, wmAlt := some d.wm } A :=
+    fun t => di.setWm _ t _ (by rw [hp]; exact hle) (by rw [hp]; exact Nat.le_refl _) hz halt
+  have dwm : DInv { d with wm := some s.idx.pruned, tmp := false, zombies := [], wmAlt := none } A := (dren false).synced
   have dtrail := dwm.torn pre F hf hcpre rfl
-  have hlow : ∀ G ∈ d.files, G.num < ({ s with writer := none } : Store).minLive → Low (maxPrune A) (recsOfFile G) := by
-    intro G hG hlt r hr'
-    have := dead_is_low { s with writer := none } (pairsOf d.files) i.rwf i.cov G.num hlt r (mem_pairsOf hG hr')
-    rw [← hp]; exact this
-  have dgc := dwm.gc ({ s with writer := none } : Store).minLive (by simp [Disk.wmVal, hp]) hclean hlow
   unfold cleanup
   simp only
-  refine ⟨?_, dgc, ?_, ?_, ?_, ?_⟩ <;> (try first | trivial | rfl)
-  · intro b hb
-    simp only [List.mem_cons, List.not_mem_nil, or_false] at hb
-    rcases hb with rfl | rfl | rfl | rfl | rfl | rfl
-    · exact ⟨rfl, di.setTmp true⟩
-    · exact ⟨rfl, dren true⟩
-    · exact ⟨rfl, dren false⟩
-    · exact ⟨rfl, dwm⟩
-    · exact ⟨rfl, dtrail⟩
-    · exact ⟨rfl, dgc⟩
-  · refine ⟨i.ewf, i.rwf, ?_, i.pruned, i.view, i.pend, ?_, ?_, ?_, ?_, ?_⟩
-    · exact i.cov.subset (pairsOf_mono (fun G hG => (List.mem_filter.mp hG).1))
-    · intro n' hn'; cases hn'
-    · intro hn'; exact absurd rfl hn'
-    · intro hn'; exact absurd rfl hn'
-    · intro G hG; exact i.next G (List.mem_filter.mp hG).1
-    · intro _ G hG; exact hclean G (List.mem_filter.mp hG).1
-  · intro G hG
-    have hm := List.mem_filter.mp hG
-    exact hlow G hm.1 (by simpa using hm.2)
+  by_cases hws : ft = Fault.wmSync
+  · simp only [hws, ↓reduceIte]
+    refine ⟨?_, dren false, i.of_disk rfl rfl, ?_, rfl, trivial⟩
+    · intro b hb
+      simp only [List.mem_cons, List.not_mem_nil, or_false] at hb
+      rcases hb with rfl | rfl | rfl
+      · exact ⟨rfl, di.setTmp true⟩
+      · exact ⟨rfl, dren true⟩
+      · exact ⟨rfl, dren false⟩
+    · intro G hG; cases hG
+  · simp only [hws, ↓reduceIte]
+    generalize hrm : ft.removable (List.filter (fun f => decide (f.num < ({ s with writer := none } : Store).minLive) && s.known.contains f.num) d.files) = rmFiles
+    have hsub : ∀ G ∈ rmFiles, G.num < ({ s with writer := none } : Store).minLive := by
+      intro G hG
+      have hmem : G ∈ List.filter (fun f => decide (f.num < ({ s with writer := none } : Store).minLive) && s.known.contains f.num) d.files := by
+        rw [← hrm] at hG
+        unfold Fault.removable at hG
+        split at hG
+        · exact List.mem_of_mem_take hG
+        · exact hG
+      have := (List.mem_filter.mp hmem).2
+      simp only [Bool.and_eq_true, decide_eq_true_eq] at this
+      exact this.1
+    have hlow : ∀ G ∈ d.files, (rmFiles.map (fun f => f.num)).contains G.num = true → Low (maxPrune A) (recsOfFile G) := by
+      intro G hG hc r hr'
+      have hc' : G.num ∈ rmFiles.map (fun f => f.num) := by simpa using hc
+      obtain ⟨G', hG', hnum⟩ := List.mem_map.mp hc'
+      have hlt := hsub G' hG'
+      rw [hnum] at hlt
+      have := dead_is_low { s with writer := none } (pairsOf d.files) i.rwf i.cov G.num hlt r (mem_pairsOf hG hr')
+      rw [← hp]; exact this
+    have dgc := dwm.gc (fun f => (rmFiles.map (fun f => f.num)).contains f.num) (by simp [Disk.wmVal, hp]) rfl hclean hlow
+    refine ⟨?_, dgc, ?_, ?_, ?_, ?_⟩
+    · intro b hb
+      simp only [List.mem_cons, List.not_mem_nil, or_false] at hb
+      rcases hb with rfl | rfl | rfl | rfl | rfl | rfl | rfl
+      · exact ⟨rfl, di.setTmp true⟩
+      · exact ⟨rfl, dren true⟩
+      · exact ⟨rfl, dren false⟩
+      · exact ⟨rfl, dwm⟩
+      · exact ⟨rfl, dtrail⟩
+      · exact ⟨rfl, dwm⟩
+      · exact ⟨rfl, dgc⟩
+    · have base : SInv { s with writer := none, known := s.known.filter (fun k => !decide (k < ({ s with writer := none } : Store).minLive)) }
+          { d with wm := some s.idx.pruned, tmp := false, wmAlt := none,
+                   files := d.files.filter (fun f => !(rmFiles.map (fun f => f.num)).contains f.num),
+                   zombies := d.files.filter (fun f => (rmFiles.map (fun f => f.num)).contains f.num) } A [] := by
+        refine ⟨i.ewf, i.rwf, ?_, i.pruned, i.view, i.pend, ?_, ?_, ?_, ?_, ?_⟩
+        · exact i.cov.subset (pairsOf_mono (fun G hG => (List.mem_filter.mp hG).1))
+        · intro n' hn'; cases hn'
+        · intro hn'; exact absurd rfl hn'
+        · intro hn'; exact absurd rfl hn'
+        · intro G hG; exact i.next G (List.mem_filter.mp hG).1
+        · intro _ G hG; exact hclean G (List.mem_filter.mp hG).1
+      split
+      · exact base
+      · exact base.of_since 0
+    · intro G hG
+      have hm := List.mem_filter.mp hG
+      exact hlow G hm.1 hm.2
+    · split <;> rfl
+    · split <;> rfl
 
 end Juno.C14
 
@@ -195,9 +247,12 @@ structure FlushOK (s : Store) (A C : List Rec) (r : OpRes) : Prop where
   closed : r.st.closed = s.closed
 
 theorem DInv.ack {d : Disk} {A C : List Rec} (i : DInv d A) (e : Equiv (maxPrune A) [] C) : DInv d (A ++ C) := by
-  refine ⟨i.asc, i.garb, i.zgarb, i.zclean, ?_, i.zlow⟩
-  have := i.pres.append e
-  simpa using this
+  refine ⟨i.asc, i.garb, i.zgarb, i.zclean, ?_, i.zlow, ?_, i.zlowAlt⟩
+  · have := i.pres.append e
+    simpa using this
+  · intro w hw
+    have := (i.presAlt w hw).append e
+    simpa using this
 
 theorem flush_ok {s : Store} {d : Disk} {A C : List Rec} (i : SInv s d A C) (di : DInv d A)
     (hc : s.closed = false) (ft : Fault) : FlushOK s A C (flushLocked s d ft) := by
@@ -233,6 +288,18 @@ theorem flush_ok {s : Store} {d : Disk} {A C : List Rec} (i : SInv s d A C) (di 
       · intro F hF; cases hF
     · have hr : s.repairRequired = false := by simpa using hrr
       simp only [hr, Bool.false_eq_true, ↓reduceIte]
+      by_cases hcr : (decide (ft = Fault.create) && s.writer.isNone) = true
+      · -- manager.Create fails: nothing happened
+        simp only [hcr, ↓reduceIte]
+        refine ⟨?_, ?_, ?_, ?_, rfl⟩
+        · intro b hb
+          simp only [List.mem_singleton] at hb
+          subst hb
+          simpa using di
+        · simpa [Outcome.committed] using di
+        · intro _; simpa [Outcome.committed] using i
+        · intro F hF; cases hF
+      simp only [hcr, Bool.false_eq_true, ↓reduceIte]
       obtain ⟨i1, dnew, d1, hz1, hw1, hidx, hpend, hr1, hcl1, hsc1⟩ := ensureWriter_ok i di hr
       generalize (ensureWriter s d).1 = s1 at *
       generalize (ensureWriter s d).2.1 = dNew at *
@@ -247,9 +314,8 @@ theorem flush_ok {s : Store} {d : Disk} {A C : List Rec} (i : SInv s d A C) (di 
         · simpa using di
         · simpa using dnew
         · simpa using d1
-      cases ft with
-      | append =>
-        simp only
+      by_cases hap : ft = Fault.append
+      · simp only [hap, ↓reduceIte]
         refine ⟨?_, ?_, ?_, ?_, hcl1⟩
         · intro b hb
           rcases List.mem_append.mp hb with h | h
@@ -265,8 +331,9 @@ theorem flush_ok {s : Store} {d : Disk} {A C : List Rec} (i : SInv s d A C) (di 
           exact ⟨i1.ewf, i1.rwf, i1.cov, i1.pruned, i1.view, i1.pend, fun n' hn' => (by cases hn'),
             fun hn' => absurd rfl hn', fun hn' => absurd rfl hn', i1.next, fun _ => i1.nogarb hr1⟩
         · intro F hF; cases hF
-      | appendNoRepair =>
-        simp only
+      simp only [hap, ↓reduceIte]
+      by_cases hnr : ft = Fault.appendNoRepair
+      · simp only [hnr, ↓reduceIte]
         refine ⟨?_, ?_, ?_, ?_, hcl1⟩
         · intro b hb
           rcases List.mem_append.mp hb with h | h
@@ -287,74 +354,53 @@ theorem flush_ok {s : Store} {d : Disk} {A C : List Rec} (i : SInv s d A C) (di 
             have := i1.next G hG
             split <;> exact this
         · intro F hF; cases hF
-      | none =>
-        simp only
-        have bs2 : ∀ b ∈ [(d, false), (dNew, false), (d1', false)] ++ [(d1'.setGarbage n true, false), (d1'.appendBatch n s.pending, true)],
-            DInv b.1 (if b.2 = true then A ++ C else A) := by
-          intro b hb
+      simp only [hnr, ↓reduceIte]
+      -- the batch is appended, synced and indexed
+      have bs2 : ∀ b ∈ [(d, false), (dNew, false), (d1', false)] ++ [(d1'.setGarbage n true, false), (d1'.appendBatch n s.pending, true)],
+          DInv b.1 (if b.2 = true then A ++ C else A) := by
+        intro b hb
+        rcases List.mem_append.mp hb with h | h
+        · exact bs1 b h
+        · simp only [List.mem_cons, List.not_mem_nil, or_false] at h
+          rcases h with rfl | rfl
+          · simpa using dtorn
+          · simpa using dfull
+      by_cases hp0 : countPrunes s.pending = 0
+      · simp only [hp0, ↓reduceIte]
+        exact ⟨bs2, (by simpa [Outcome.committed] using dfull), fun _ => (by simpa [Outcome.committed] using s2inv),
+          fun F hF => (by cases hF), hcl1⟩
+      simp only [hp0, ↓reduceIte]
+      by_cases hlt : s.sinceCleanup + countPrunes s.pending < cleanupInterval
+      · simp only [hlt, ↓reduceIte]
+        exact ⟨bs2, (by simpa [Outcome.committed] using dfull),
+          fun _ => (by simpa [Outcome.committed] using s2inv.of_since _), fun F hF => (by cases hF), hcl1⟩
+      simp only [hlt, ↓reduceIte]
+      by_cases hwm : ft = Fault.watermark
+      · simp only [hwm, ↓reduceIte]
+        refine ⟨?_, ?_, ?_, ?_, hcl1⟩
+        · intro b hb
           rcases List.mem_append.mp hb with h | h
-          · exact bs1 b h
+          · exact bs2 b h
           · simp only [List.mem_cons, List.not_mem_nil, or_false] at h
             rcases h with rfl | rfl
-            · simpa using dtorn
-            · simpa using dfull
-        by_cases hp0 : countPrunes s.pending = 0
-        · simp only [hp0, ↓reduceIte]
-          exact ⟨bs2, (by simpa [Outcome.committed] using dfull), fun _ => (by simpa [Outcome.committed] using s2inv),
-            fun F hF => (by cases hF), hcl1⟩
-        · simp only [hp0, ↓reduceIte]
-          by_cases hlt : s.sinceCleanup + countPrunes s.pending < cleanupInterval
-          · simp only [hlt, ↓reduceIte]
-            exact ⟨bs2, (by simpa [Outcome.committed] using dfull),
-              fun _ => (by simpa [Outcome.committed] using s2inv.of_since _), fun F hF => (by cases hF), hcl1⟩
-          · simp only [hlt, ↓reduceIte]
-            have hne : (Fault.none = Fault.watermark) = False := by simp
-            simp only [hne, ↓reduceIte]
-            obtain ⟨cb, cd, cs, cr, co, cc⟩ := cleanup_ok (s2inv.of_since (s.sinceCleanup + countPrunes s.pending)) dfull hw1 hzf hr1
-            refine ⟨?_, ?_, ?_, ?_, ?_⟩
-            · intro b hb
-              rcases List.mem_append.mp hb with h | h
-              · exact bs2 b h
-              · obtain ⟨h1, h2⟩ := cb b h
-                simpa [h1] using h2
-            · simpa [co, Outcome.committed] using cd
-            · intro _; simpa [co, Outcome.committed] using cs
-            · intro F hF; simpa [co, Outcome.committed] using cr F hF
-            · rw [cc]; exact hcl1
-      | watermark =>
-        simp only
-        have bs2 : ∀ b ∈ [(d, false), (dNew, false), (d1', false)] ++ [(d1'.setGarbage n true, false), (d1'.appendBatch n s.pending, true)],
-            DInv b.1 (if b.2 = true then A ++ C else A) := by
-          intro b hb
-          rcases List.mem_append.mp hb with h | h
-          · exact bs1 b h
-          · simp only [List.mem_cons, List.not_mem_nil, or_false] at h
-            rcases h with rfl | rfl
-            · simpa using dtorn
-            · simpa using dfull
-        by_cases hp0 : countPrunes s.pending = 0
-        · simp only [hp0, ↓reduceIte]
-          exact ⟨bs2, (by simpa [Outcome.committed] using dfull), fun _ => (by simpa [Outcome.committed] using s2inv),
-            fun F hF => (by cases hF), hcl1⟩
-        · simp only [hp0, ↓reduceIte]
-          by_cases hlt : s.sinceCleanup + countPrunes s.pending < cleanupInterval
-          · simp only [hlt, ↓reduceIte]
-            exact ⟨bs2, (by simpa [Outcome.committed] using dfull),
-              fun _ => (by simpa [Outcome.committed] using s2inv.of_since _), fun F hF => (by cases hF), hcl1⟩
-          · simp only [hlt, ↓reduceIte]
-            refine ⟨?_, ?_, ?_, ?_, hcl1⟩
-            · intro b hb
-              rcases List.mem_append.mp hb with h | h
-              · exact bs2 b h
-              · simp only [List.mem_cons, List.not_mem_nil, or_false] at h
-                rcases h with rfl | rfl
-                · simpa using dfull.setTmp true
-                · simpa using dfull.setTmp false
-            · simpa [Outcome.committed] using dfull.setTmp false
-            · intro _
-              simp only [Outcome.committed, ↓reduceIte]
-              have s3 := s2inv.of_since (s.sinceCleanup + countPrunes s.pending)
-              exact ⟨s3.ewf, s3.rwf, s3.cov, s3.pruned, s3.view, s3.pend, s3.wr, s3.wrz, s3.wrr, s3.next, s3.nogarb⟩
-            · intro F hF; cases hF
+            · simpa using dfull.setTmp true
+            · simpa using dfull.setTmp false
+        · simpa [Outcome.committed] using dfull.setTmp false
+        · intro _
+          simp only [Outcome.committed, ↓reduceIte]
+          exact (s2inv.of_since (s.sinceCleanup + countPrunes s.pending)).of_disk rfl rfl
+        · intro F hF; cases hF
+      simp only [hwm, ↓reduceIte]
+      obtain ⟨cb, cd, cs, cr, co, cc⟩ := cleanup_ok (s2inv.of_since (s.sinceCleanup + countPrunes s.pending)) dfull hw1 hzf hr1 ft
+      refine ⟨?_, ?_, ?_, ?_, ?_⟩
+      · intro b hb
+        rcases List.mem_append.mp hb with h | h
+        · exact bs2 b h
+        · obtain ⟨h1, h2⟩ := cb b h
+          simpa [h1] using h2
+      · simpa [co] using cd
+      · intro _; simpa [co] using cs
+      · intro F hF; simpa [co] using cr F hF
+      · rw [cc]; exact hcl1
 
 end Juno.C14
